@@ -20,6 +20,7 @@ import (
 	"net/http/httptest"
 	"os"
 	"path/filepath"
+	"runtime"
 	"strings"
 	"sync"
 	"sync/atomic"
@@ -48,6 +49,12 @@ type c16Client struct {
 	closed  atomic.Bool
 	closedT atomic.Int64
 	done    chan struct{}
+}
+
+type c16Bracket struct {
+	client *c16Client
+	tag    string
+	room   string
 }
 
 type c16Frame struct {
@@ -80,6 +87,7 @@ type c16World struct {
 	mu       sync.Mutex
 	members  []c16Member
 	sends    map[string]c16Send
+	brackets []c16Bracket
 	nextMsg  atomic.Int64
 	maxConn  int
 	maxRoom  int
@@ -377,6 +385,58 @@ func c16Round(w *mon.W, round int) {
 				x.ops.Add(1600)
 				a.srv.LeaveRoom(room)
 				b.srv.LeaveRoom(room)
+			}
+		}
+		// leave-then-send order: a connection brackets each stay in a room with two frames sent to itself, [ before the
+		// JoinRoom call and ] after LeaveRoom returned, while another goroutine broadcasts to that room without pause
+		// (from outside the hub loop, like an HTTP route does). Frames to one connection keep their order, and a room frame
+		// is queued only while the connection is a member, so no room frame may arrive between a ] and the next [.
+		{
+			var live []*c16Client
+			for _, c := range x.clients {
+				if c.srv != nil && !c.closed.Load() {
+					live = append(live, c)
+				}
+			}
+			if len(live) >= 1 {
+				lv := live[(phase+2)%len(live)]
+				room := fmt.Sprintf("bracket-%d", phase)
+				tag := fmt.Sprintf("bk%d.%d", round, phase)
+				var stop atomic.Bool
+				var bw sync.WaitGroup
+				bw.Add(1)
+				go func() {
+					defer bw.Done()
+					for k := 0; !stop.Load() && k < 200000; k++ {
+						rm.BroadcastToRoom(room, []byte(fmt.Sprintf("%s|hb|%d", tag, k)), nil)
+					}
+				}()
+				sound := true // every bracket frame was accepted into the queue
+				for j := 0; j < 150 && !lv.closed.Load(); j++ {
+					if lv.srv.Send([]byte(fmt.Sprintf("%s|[|%d", tag, j))) != nil {
+						sound = false
+					}
+					lv.srv.JoinRoom(room)
+					if j%3 == 0 {
+						runtime.Gosched()
+					}
+					lv.srv.LeaveRoom(room)
+					if lv.srv.Send([]byte(fmt.Sprintf("%s|]|%d", tag, j))) != nil {
+						sound = false
+					}
+				}
+				stop.Store(true)
+				bw.Wait()
+				lv.srv.LeaveRoom(room)
+				x.ops.Add(450)
+				if sound && x.strategy == string(websocket.QueueStrategyBlock) {
+					// drop_oldest may evict a bracket frame later and drop_newest discards one silently (Send returns nil): only
+					// the block strategy keeps every frame it accepted, in order
+					x.brackets = append(x.brackets, c16Bracket{client: lv, tag: tag, room: room})
+					w.Count("leave_then_send_order_brackets_judged", 150)
+				} else {
+					w.Count("leave_then_send_order_brackets_not_judged", 150)
+				}
 			}
 		}
 		var wg sync.WaitGroup
@@ -760,6 +820,28 @@ func (x *c16World) invariants(phase int, rooms []string, wit func(map[string]int
 func (x *c16World) deliveries(wit func(map[string]interface{}) map[string]interface{}) {
 	x.mu.Lock()
 	defer x.mu.Unlock()
+	for _, bk := range x.brackets {
+		bk.client.mu.Lock()
+		frames := append([]c16Frame{}, bk.client.frames...)
+		bk.client.mu.Unlock()
+		outside := true // before the first [ and after every ]
+		lastClose := ""
+		for _, f := range frames {
+			if !strings.HasPrefix(f.msg, bk.tag+"|") {
+				continue
+			}
+			switch {
+			case strings.HasPrefix(f.msg, bk.tag+"|[|"):
+				outside = false
+			case strings.HasPrefix(f.msg, bk.tag+"|]|"):
+				outside = true
+				lastClose = f.msg
+			case outside:
+				x.w.Violate("room-frame-queued-after-leave-returned", fmt.Sprintf("client %d received the room frame %s after %q, i.e. it was queued after LeaveRoom(%s) had returned and before the next JoinRoom was called", bk.client.idx, f.msg, lastClose, bk.room), wit(map[string]interface{}{"room": bk.room}))
+				return
+			}
+		}
+	}
 	for _, c := range x.clients {
 		c.mu.Lock()
 		frames := append([]c16Frame{}, c.frames...)
